@@ -433,6 +433,17 @@ func judgeReplaced(r *Run, j *Judged, cl []*cls, by map[int]*OResp) {
 			if !stable {
 				continue
 			}
+			// another validation of the same resource in flight at the same time works on its own copy of the
+			// entry and may legitimately finish later: which write lands last is then a race, not a defect
+			overlap := false
+			for _, o := range r.Calls {
+				if o != u && o.Res == res && o.SeqStart < done && (!o.Ended || r.lastSeqOfLineage(o) > u.SeqStart) {
+					overlap = true
+				}
+			}
+			if overlap {
+				continue
+			}
 			K := classKey(vary, u.Req.Header)
 			for _, cx := range cl {
 				x := cx.e
